@@ -373,7 +373,7 @@ impl Check for C01 {
     }
     fn n_cases(&self, tier: Tier) -> u64 {
         match tier {
-            Tier::Quick => 5_000,
+            Tier::Quick => 20_000,
             Tier::Thorough => 300_000,
         }
     }
